@@ -213,7 +213,32 @@ def broken_project(rng):
         kids = b.children(mods, m["path"])
         m["broken"] = [m["path"] + (k,) for k in kids[:1]]
         m["stmts"], m["all"] = [], None
+        if kids:
+            # the re-export map of a package whose __init__ does not parse is empty (reexport_resolver.go GetReExportMap)
+            user = rng.choice([x for x in plain if x["path"][:len(m["path"])] != m["path"]] or plain)
+            user["stmts"].append(b.st("from", m["path"], [kids[0], "fa"]))
     return mods
+
+
+def deeprel_project():
+    """relative imports in an __init__.py that leave the top-level package (reexport_resolver.go: level > depth)"""
+    b = B()
+    st, mod = b.st, b.mod
+    return [mod(("b",), pkg=True, stmts=[st("rel", ("util",), ["fa"], level=2), st("rel", ("x", "y"), [("fb", "zb")], level=3),
+                                         st("rel", ("core",), ["fc"], level=1)]),
+            mod(("b", "core")), mod(("b", "sub"), pkg=True, stmts=[st("rel", ("util",), ["fa"], level=3), st("rel", ("core",), [("fb", "cb")], level=2)]),
+            mod(("b", "sub", "leaf")), mod(("util",)),
+            mod(("top",), stmts=[st("from", ("b",), ["fa"]), st("from", ("b",), ["zb", "fc"]), st("from", ("b", "sub"), ["fa", "cb"])])]
+
+
+def stdlib_namespace_project():
+    """a directory named like a standard-library package, without __init__.py: only IncludeStdLib decides whether
+    `from xml import mod` reaches xml/mod.py (Python itself takes the standard library's xml)"""
+    b = B()
+    st, mod = b.st, b.mod
+    return [mod(("xml", "mod")), mod(("xml", "other"), stmts=[st("rel", (), ["mod"], level=1)]),
+            mod(("app",), stmts=[st("from", ("xml",), ["mod"]), st("abs", ("xml", "other")), st("from", ("email",), ["mod"])]),
+            mod(("email", "mod"), stmts=[st("from", ("xml",), ["other"])])]
 
 
 def balanced_project(rng):
@@ -258,7 +283,11 @@ def extra_projects(rng, thorough):
     mods = shadow_project(rng)
     xs.append(X("shadow", mods, spec_mods=[m for m in mods if not (m["path"] == ("dup",) and not m["pkg"])], both_orders=True))
     for k in range(6 if thorough else 2):
-        xs.append(X("broken", broken_project(rng), both_orders=True))
+        xs.append(X("broken", broken_project(rng), both_orders=True, project_run=(k == 0)))
+    xs.append(X("deeprel", deeprel_project()))
+    mods = stdlib_namespace_project()
+    for o in ((False, True), (True, False)):
+        xs.append(X("stdlib-namespace", mods, opts=dict(stdlib=o[0], third=o[1], rel=True, excl=[]), oracle=False, tie_only=True))
     for k in range(8 if thorough else 3):
         xs.append(X("balanced", balanced_project(rng)))
     return xs
@@ -516,16 +545,17 @@ def decide_extra(ck, nm, work, xs, outs):
                 ck.violation("ModuleAnalyzer.AnalyzeProject (the way `pyscn check --select deps` runs it): %s"
                              % (r.get("project_error") or "modules %s, project %s" % (r.get("project_modules"), nodes)), replay)
                 continue
-            if pe != ie:
-                ck.violation("AnalyzeProject and AnalyzeFiles give different graphs with the same options: %s" % sorted(pe ^ ie), replay)
+            same_opts = x["opts"] == dict(stdlib=False, third=False, rel=True, excl=[])
+            if pe != ie and (same_opts or not (ie - pe <= se and pe <= ie)):
+                ck.violation("AnalyzeProject and AnalyzeFiles give different graphs%s: %s" % (" with the same options" if same_opts else "", sorted(pe ^ ie)), replay)
                 continue
         pkgs = {".".join(pre + list(m["path"])) for m in mods if m["pkg"]}
         norm = lambda es: {(a, c) for (a, c) in es if not (a in pkgs and c.startswith(a + "."))} if "init-own-submodule" in old else es
-        if x["opts"] and x["opts"]["excl"]:
-            # shouldIncludeDependency: the property says nothing about excluded names; the model does
+        if x.get("tie_only") or (x["opts"] and x["opts"]["excl"]):
+            # shouldIncludeDependency / a namespace directory named like a stdlib package: the property says nothing, the model does
             if ie != me:
-                ck.violation("with exclude pattern %s the import graph is not the one module_analyzer.go's shouldIncludeDependency gives "
-                             "(Deps/ImportsOpt.v): impl-model %s, model-impl %s" % (x["opts"]["excl"], sorted(ie - me)[:6], sorted(me - ie)[:6]), replay)
+                ck.violation("with options %s the import graph is not the one module_analyzer.go gives (Deps/ImportsOpt.v): impl-model %s, "
+                             "model-impl %s" % (x["opts"], sorted(ie - me)[:6], sorted(me - ie)[:6]), replay)
             continue
         if ie != se:
             stats["diff_spec"] += 1
